@@ -993,7 +993,7 @@ func main() {
 		}()
 		f()
 	}
-	// corpus: F-C02-1 (periodic delta reader, callback error during a flush / the final collection)
+	// corpus: the histories of F-C02-1 (fixed by b162dd7 / e0f719a): periodic reader, callback error during a flush / the final collection
 	corpus := []struct {
 		cfgs []readerCfg
 		ops  []seqOp
@@ -1003,7 +1003,7 @@ func main() {
 		{[]readerCfg{{true, false}}, []seqOp{{typ: "add", v: 5}, {typ: "err", b: true}, {typ: "flush"}, {typ: "err", b: false}, {typ: "add", v: 7}, {typ: "flush"}}},
 	}
 	for n, c := range corpus {
-		desc := fmt.Sprintf("corpus %d (F-C02-1 shape)", n)
+		desc := fmt.Sprintf("corpus %d (history of F-C02-1, fixed)", n)
 		guard(desc, func() { runSequential(w, r.Fork(), desc, c.cfgs, 1, 1, c.ops, false, 0, "seq-corpus") })
 	}
 	nSeq := o.Count(400, 8000)
